@@ -231,3 +231,8 @@ def run(ck):
     # outcome depend on the order in which constraints were registered (argument binding rule of C05; reports under its C05 ids)
     from .c05 import rule_binding
     ck.attempt(rule_binding)
+    # "registering stations in a different order yields the same results (for schedulers whose decisions do not hinge on ties)": the
+    # bundled sort orders rank sessions by the documented key - a key that is constant for plugged-in sessions turns every decision into
+    # a tie that the stable sort breaks by station order (sort-order table of C08; reports under its C08 ids)
+    from .c08 import rule_sorts
+    ck.attempt(rule_sorts)
